@@ -12,7 +12,7 @@ with open(os.path.join(HERE, "latex682.json")) as _f:
     LATEX = json.load(_f)          # command text -> code points (snapshot of the documented table)
 
 PIECES = {"x": "R", "A": "in", "B": "t", "M": "mathbb", "p": "pagenumber", "1": "1", "sp": " ", "^": "^", "_": "_",
-          ">": ">", "<": "<", "=": "=", "nl": "\n", "bs": "\\", "G": "{R}", ".": ".", "T": "\\totalpage", "F": "\\pagefield"}
+          ">": ">", "<": "<", "=": "=", "nl": "\n", "bs": "\\", "G": "{R}", "E": "{}", ".": ".", "T": "\\totalpage", "F": "\\pagefield"}
 
 
 def concretise(syms, kcmd=None):
